@@ -20,7 +20,7 @@ import (
 func init() {
 	core.Register(&core.Prop{
 		ID: "C10",
-		Rule: "history phase: case = one pair of spatial references (emphasis on pairs where both sides carry 3-/7-parameter datums other than WGS84 — the intermediate WGS84 hop — and on sources/destinations with non-default +axis strings, plus ordinary pairs; in 12% of the pairs one side parses but cannot be set up - an unimplemented projection or utm without zone - so that every call fails) with transformers T: S->D, T': D->S and T'': S->registered WGS84 built once, then driven through a random history of 2-40 interleaved calls on tagged inputs (repeats included); oracle for every call = a transformer built from freshly parsed copies of the same definitions and used once (agreement within 4 ulp, same error/no-error outcome, no panic); " +
+		Rule: "history phase: case = one pair of spatial references (emphasis on pairs where both sides carry 3-/7-parameter datums other than WGS84 — the intermediate WGS84 hop — and on sources/destinations with non-default +axis strings, plus ordinary pairs; in 12% of the pairs one side parses but cannot be set up - an unimplemented projection or utm without zone - so that every call fails; 'twin' pairs = one system twice with one optional clause written on one side only, never two spellings of the same system) with transformers T: S->D, T': D->S and T'': S->registered WGS84 built once, then driven through a random history of 2-40 interleaved calls on tagged inputs (repeats included; a fifth of the calls go to a transformer built at that moment from the two already used SR objects); oracle for every call = a transformer built from freshly parsed copies of the same definitions and used once (agreement within 4 ulp, same error/no-error outcome, no panic); " +
 			"structure phase (1% of the cases: one path of 63..65537 vertices in each container type with a value-keyed failing vertex next to the ends / chunk boundaries): case = one geometry of the 8 types (empty members included) transformed with an instrumented affine transformer (type/nesting preserved, *Bounds -> 4-vertex polygon in corner order, vertex i == t(vertex i) bitwise, input untouched), with nil (identity), with a transformer failing on its k-th call for every k <= Len (exactly that error, no panic) and with a real datum-shifting transformer compared vertex by vertex with fresh single-use transformers; " +
 			"an evaluation is one transformer call or one Transform call judged; non-trivial = history with >= 2 calls through a hop pair, or geometry with >= 2 vertices; distinct by content hash",
 		Assumptions: []string{"concurrent use of one transformer is not claimed (the property quantifies over histories, not schedules)", "4-ulp slack so that harmless refactors (cached constants) do not alarm"},
@@ -40,7 +40,7 @@ func init() {
 		},
 		Run: run,
 		Floors: func(t string) map[string]int64 {
-			return map[string]int64{"pair.hop": 500, "pair.axis": 300, "pair.ordinary": 300, "history.calls": 20000, "history.repeat_call": 2000, "history.to_registered_wgs84": 1000, "history.failing_input": 1000, "pair.one_side_cannot_be_set_up": 100,
+			return map[string]int64{"pair.hop": 500, "pair.axis": 300, "pair.ordinary": 300, "pair.twin": 200, "history.built_from_used_references": 3000, "history.calls": 20000, "history.repeat_call": 2000, "history.to_registered_wgs84": 1000, "history.failing_input": 1000, "pair.one_side_cannot_be_set_up": 100,
 				"structure.failing_k": 10000, "structure.shared_backing_array": 1000, "structure.arbitrary_bit_patterns": 1000, "longpath.vertices>=2048": 15, "structure.nil_transformer": 1000, "structure.real_transformer": 1000, "structure.*Bounds": 100, "structure.GeometryCollection": 100, "structure.MultiPolygon": 100, "structure.MultiLineString": 100}
 		},
 	})
@@ -129,7 +129,7 @@ func fresh(src, dst string, in [2]float64) (o outcome) {
 func runHistory(c *core.Ctx) {
 	r := c.R
 	// choose the pair class
-	class := []string{"hop", "hop", "axis", "ordinary"}[r.Intn(4)]
+	class := []string{"hop", "hop", "axis", "ordinary", "twin"}[r.Intn(5)]
 	var sdef, ddef *crsgen.Def
 	// a common geographic area so that both systems are usable at the same places
 	lonG, latG := r.Range(-150, 150), r.Range(10, 60)
@@ -160,6 +160,26 @@ func runHistory(c *core.Ctx) {
 		}
 		if r.Bool() || sdef.Extra == "" {
 			ddef.Extra = " +axis=" + axes[r.Intn(len(axes))]
+		}
+	case "twin":
+		// the same system twice, one optional clause (false origin, latitude of origin / of true
+		// scale) written on one side only: whether the two count as the same system must not
+		// depend on whether either has been used before
+		sdef = genIn(nil)
+		for tries := 0; ddef == nil && tries < 20; tries++ {
+			t, what := crsgen.Twin(r, sdef)
+			// (twins that spell the same system are left out: for those a used pair is recognised
+			// as equal and gets the identity, a fresh pair runs inverse and forward, and the two
+			// differ by the truncation error of the series - both within the accuracy of C08)
+			if t != nil && !strings.HasPrefix(what, "pm") && !strings.Contains(what, "default_omitted") && !(sdef.Proj == "utm" && !strings.HasPrefix(what, "lat")) {
+				ddef = t
+			}
+		}
+		if ddef == nil {
+			class = "ordinary"
+			ddef = genIn(nil)
+		} else if r.Bool() {
+			sdef, ddef = ddef, sdef
 		}
 	default:
 		sdef, ddef = genIn(nil), genIn(nil)
@@ -237,8 +257,11 @@ func runHistory(c *core.Ctx) {
 	for k := 0; k < n; k++ {
 		var cl call
 		cl.which = r.Intn(3)
+		if r.Chance(0.2) {
+			cl.which = 3 + r.Intn(2)
+		}
 		i := r.Intn(5)
-		if cl.which == 1 {
+		if cl.which == 1 || cl.which == 4 {
 			cl.in = inD[i]
 		} else {
 			cl.in = inS[i]
@@ -259,7 +282,19 @@ func runHistory(c *core.Ctx) {
 	if n >= 2 && class == "hop" {
 		c.Nontrivial(h.Sum())
 	}
-	names := []string{"T(S->D)", "T'(D->S)", "T''(S->WGS84)"}
+	names := []string{"T(S->D)", "T'(D->S)", "T''(S->WGS84)", "a transformer S->D built now from the same two spatial references", "a transformer D->S built now from the same two spatial references"}
+	rebuilt := func(a, b *proj.SR, in [2]float64) (o outcome) {
+		defer func() {
+			if r := recover(); r != nil {
+				o.panic = fmt.Sprint(r)
+			}
+		}()
+		t, err := a.NewTransform(b)
+		if err != nil {
+			return outcome{err: true}
+		}
+		return apply(t, in)
+	}
 	for k, cl := range hist {
 		c.Eval()
 		c.Count("history.calls")
@@ -272,6 +307,12 @@ func runHistory(c *core.Ctx) {
 		case 2:
 			c.Count("history.to_registered_wgs84")
 			got, want = apply(Tw, cl.in), fresh(S, "WGS84", cl.in)
+		case 3:
+			c.Count("history.built_from_used_references")
+			got, want = rebuilt(srS, srD, cl.in), fresh(S, D, cl.in)
+		case 4:
+			c.Count("history.built_from_used_references")
+			got, want = rebuilt(srD, srS, cl.in), fresh(D, S, cl.in)
 		}
 		log = append(log, fmt.Sprintf("#%d %s(%v, %v) -> shared (%v, %v, err=%v) fresh (%v, %v, err=%v)", k, names[cl.which], cl.in[0], cl.in[1], got.x, got.y, got.err, want.x, want.y, want.err))
 		detail["history"] = log
